@@ -21,9 +21,9 @@ CLAIMED = {
  "C04": dict(
     text="Equality projections of all four types: membership, orthogonality of the residual, nearest point, idempotence, fixed points "
          "and object-level = variable-level (both parametrisation flags) proved in Lean 4 for all d, m over any ordered field (hence the "
-         "executed rational model). Inequality projections: PSD feasibility, variational inequality, nearest point, idempotence and fixed "
-         "points proved in parameter space (incl. orthonormality of the Choi basis) for an exact eigen-decomposition and eps=0, with basis "
-         "completeness as an explicit hypothesis (named _partial). Model tied to the real code by 32 correspondence ops with numpy's eigh "
+         "executed rational model). Inequality projections: for orthonormal Hermitian bases of d^2 elements (completeness DERIVED) and an exact "
+         "eigh result, the routines do not raise and return the unique nearest parameter vector with PSD operator(s); idempotence and fixed points "
+         "proved; effect of eps > 0 bounded coordinate-wise (partial only w.r.t. float eigh accuracy). Model tied to the real code by 32 correspondence ops with numpy's eigh "
          "result passed through; purity, idempotence, VI and KKT certificates are checked on the real code by the oracle.",
     design="§4 C04, §9", technique="Lean 4 proof (affine projections; clip_vi for the PSD cone) + model/implementation correspondence with eigh pass-through"),
  "C05": dict(
@@ -36,9 +36,9 @@ CLAIMED = {
  "C12": dict(
     text="Exact second-order Taylor identity of the weighted squared error (so gradient and Hessian are the derivatives), value formula, "
          "fast = generic value and gradient given equal weights (squared error and relative entropy kernels), gradient of the relative "
-         "entropy is the derivative (Mathlib HasDerivAt) of the defining formula away from clipping (partial: unclipped formula), and wiring "
+         "entropy and its Hessian are the derivatives (Mathlib HasDerivAt) of the modelled kernels incl. clipping, value = sum q log(q/p) away from the thresholds, and wiring "
          "theorems over the loss objects' cached fields as explicit state records: every accepted weighting mode takes effect from any "
-         "earlier state, generic and fast, for any number of outcomes. Relative-entropy Hessian and value-vs-formula are oracle-checked only. 16 correspondence ops incl. configuration histories.",
+         "earlier state, generic and fast, for any number of outcomes. 16 correspondence ops incl. configuration histories.",
     design="§4 C12, §9", technique="Lean 4 proof (algebraic Taylor identity, HasDerivAt, state records) + model/implementation correspondence"),
  "C19": dict(
     text="Covariance of the empirical distributions, MSE of the empirical distributions and of the linear estimate (variable mode and POVM "
